@@ -172,16 +172,26 @@ func zzSymFloatKJ(name string, P, j int) (f float64, k uint64, neg bool) {
 //
 //verif:unwind 80
 //verif:concretize 8
-func zzH11_int_float() {
+func zzH11_int_float_sym() { zzIntFloat(0) }
+
+//verif:unwind 80
+//verif:concretize 8
+func zzH11_int_float_conc() { zzIntFloat(1) }
+
+//verif:unwind 80
+//verif:concretize 8
+//verif:thorough
+func zzH11_int_float_small() { zzIntFloat(2) }
+
+func zzIntFloat(part int) {
 	B := zzParam("bits", 66, 70)
 	x, xv := zzSymInt("x", B)
 	var f float64
 	var lt, eq bool // reference: x < f, x == f
 	bigJ := []int{-1, 0, 11}
-	smallP := 0
+	smallP := 3
 	if zzParam("thorough_regimes", 0, 1) == 1 {
 		bigJ = []int{-2, -1, 0, 1, 10, 11, 12}
-		smallP = 3
 	}
 	smallJ := []int{-2, -1, 0, 1}
 	type conc struct {
@@ -203,7 +213,15 @@ func zzH11_int_float() {
 		{f: math.Inf(-1), huge: -1},
 	}
 	nBig, nSmall := len(bigJ), smallP*len(smallJ)
-	r := zzChoice("regime", nBig+nSmall+len(concs)+1)
+	var r int
+	switch part {
+	case 0:
+		r = zzChoice("regime", nBig)
+	case 1:
+		r = nBig + nSmall + zzChoice("regime", len(concs)+1)
+	default:
+		r = nBig + zzChoice("regime", nSmall)
+	}
 	switch {
 	case r < nBig+nSmall:
 		P, j := 53, 0
